@@ -6,6 +6,7 @@ package main
 // library's own parser/verifier.
 
 import (
+	"io"
 	"bytes"
 	"crypto"
 	"crypto/sha256"
@@ -69,6 +70,20 @@ func runP7Sign(sc M) {
 			return err
 		})
 	}
+	// the signer of the call under observation; "overlapped": while it is asked to sign (a token that takes its time) another
+	// complete signing of the same kind - other content, other key and certificate - runs from start to end
+	var signer crypto.Signer = testKey(key)
+	if sc["overlapped"] == true {
+		signer = duringSigner{testKey(key), func() {
+			oc := prbytes(fmt.Sprint("c05-overlap:", id), 77)
+			if ct == "spc" {
+				authenticode.SignAuthenticode(testKey("k3"), other, bytes.NewReader(oc), crypto.SHA256)
+			} else {
+				pkcs7.SignPKCS7(testKey("k3"), other, oidData, oc)
+				pkcs7.SignPKCS7(testKey("k3"), other, oidOther, derTLV(0x04, oc))
+			}
+		}}
+	}
 	var der []byte
 	var oid asn1.ObjectIdentifier
 	var signedValue []byte // the value octets the messageDigest must cover
@@ -78,20 +93,20 @@ func runP7Sign(sc M) {
 		switch ct {
 		case "spc":
 			oid = oidSpcIndirect
-			der, e = authenticode.SignAuthenticode(testKey(key), cert, bytes.NewReader(content), crypto.SHA256)
+			der, e = authenticode.SignAuthenticode(signer, cert, bytes.NewReader(content), crypto.SHA256)
 			d := sha256.Sum256(content)
 			signedValue = spcContent(d[:])
 		case "data":
 			oid = oidData
-			der, e = pkcs7.SignPKCS7(testKey(key), cert, oid, content)
+			der, e = pkcs7.SignPKCS7(signer, cert, oid, content)
 			signedValue = content
 		case "other":
 			oid = oidOther
-			der, e = pkcs7.SignPKCS7(testKey(key), cert, oid, content)
+			der, e = pkcs7.SignPKCS7(signer, cert, oid, content)
 			signedValue = content
 		default:
 			oid = oidLong
-			der, e = pkcs7.SignPKCS7(testKey(key), cert, oid, content)
+			der, e = pkcs7.SignPKCS7(signer, cert, oid, content)
 			signedValue = content
 		}
 		return e
@@ -232,6 +247,17 @@ func runP7Sign(sc M) {
 	}
 	ev["own"] = own
 	emit(ev)
+}
+
+// duringSigner runs `during` while the library waits for the signature
+type duringSigner struct {
+	crypto.Signer
+	during func()
+}
+
+func (d duringSigner) Sign(r io.Reader, digest []byte, opts crypto.SignerOpts) ([]byte, error) {
+	d.during()
+	return d.Signer.Sign(r, digest, opts)
 }
 
 func pbHas(pb *p7Blob) bool { return pb != nil && pb.HasContent }
